@@ -569,7 +569,7 @@ def _nf_replay(rep: Report, pid: str, states: list) -> None:
 def run(pid: str, tier: str, replay: str | None = None) -> int:
     rep = Report(pid, tier, "model_checking")
     thorough = tier == "thorough"
-    if replay:
+    if replay and json.load(open(replay))["vector"].get("kind") == "marker-session":
         return _replay(rep, replay)
     if pid in ("C02", "C15", "C12"):
         normal_form_mc(rep, pid, thorough)
